@@ -6,9 +6,11 @@ FINISH = dict(level="model_checking",
               rule="TLC: the locale bracket of json_tokener_parse_ex (size guard, duplocale, newlocale, uselocale, body, "
                    "restore, freelocale; each failure exit) for every initial global/thread locale: locale restored, no "
                    "locale object leaked, body under C numeric (3 mutant switches caught); V: a synthesised comma-decimal "
-                   "locale installed globally and per thread x 19 parser outcome cases x injected duplocale/newlocale "
-                   "failures + serialization under 5 flag sets; TLC checks handle identity, printf probe, libc call "
-                   "path, leaks, and equality with the C-locale run")
+                   "locale installed globally and per thread x (19 parser outcome cases + generated documents whose numbers take "
+                   "every printf shape, quick 40 / thorough 300) x one call and 3 chunkings x injected duplocale/newlocale "
+                   "failures + serialization of generated doubles under 5 flag sets and 3 configured formats; TLC checks "
+                   "handle identity and printf probe after every call, leaks, and equality with the C-locale run (the libc "
+                   "call path is recorded, not judged: the property does not prescribe it)")
 MUTS = ["return_without_restore", "no_free", "leak_dup_on_new_failure"]
 
 
@@ -19,7 +21,10 @@ def diag_of(rec, ex):
 
 
 def make_locale():
-    d = os.path.join(vlib.BUILD, "locale")
+    import hashlib
+    srcs = os.path.join(vlib.HARNESS, "locale")
+    h = hashlib.sha1(open(os.path.join(srcs, "comma.src"), "rb").read() + open(os.path.join(srcs, "ascii.cm"), "rb").read()).hexdigest()[:10]
+    d = os.path.join(vlib.BUILD, "locale-" + h)
     tgt = os.path.join(d, "xx_COMMA")
     if not os.path.exists(os.path.join(tgt, "LC_NUMERIC")):
         os.makedirs(d, exist_ok=True)
@@ -40,7 +45,7 @@ def run(ck):
     exe = vlib.build("san", vlib.harness_sources(), "vh")
     locdir = make_locale()
     tp = os.path.join(ck.dir, "v.ndjson")
-    deaths = vlib.run_executions(exe, lambda st: ["c14", "drive"], 1, tp, timeout=600, env={"LOCPATH": locdir,
+    deaths = vlib.run_executions(exe, lambda st: ["c14", "drive", 300 if ck.tier == "thorough" else 40], 1, tp, timeout=600, env={"LOCPATH": locdir,
                                         # glibc's own locale loading leaves allocations at exit; json-c's locale objects are counted by the wrappers
                                         "ASAN_OPTIONS": "detect_leaks=0:abort_on_error=0:exitcode=99:allocator_may_return_null=1"})
     vlib.conformance(ck, "V:locales-x-outcome-classes", "TraceLocale", "trace.cfg", tp, deaths, diag_of, min_events=100, timeout=900)
